@@ -561,6 +561,18 @@ Definition steps_tail : list step :=
 Definition map_steps (cleanup : bool) : list step :=
   steps_head ++ (if cleanup then [Effect E_cleanup] else steps_prev) ++ steps_tail.
 
+(* the skeleton of Pipeline.run up to the first invocation of user code (`self._run`, classified as the Effect of
+   this path): everything that can reject the call - unknown output, MapSpec pipeline, output given as keyword,
+   and since the repair the missing / unused keywords (Pipe.run_precheck) - comes before it *)
+Definition run_entry_steps : list step :=
+  [Check (s "self.func_dependencies@Pipeline.run");
+   Check (s "self.root_args@Pipeline.run?if (p := (self.mapspec_names & set(self.func_dependencies(output_name))))");
+   Check (s "raise RuntimeError@Pipeline.run?if (p := (self.mapspec_names & set(self.func_dependencies(output_name))))");
+   Check (s "raise ValueError@Pipeline.run?if output_name in kwargs");
+   Check (s "raise ValueError@Pipeline._validate_run_kwargs.visit?for&else arg in func._bound or arg in flat_scope_kwargs&else arg in self.output_to_func&if arg not in self.defaults");
+   Check (s "raise UnusedParametersError@Pipeline._validate_run_kwargs?if (unused := (flat_scope_kwargs.keys() - used))");
+   Effect (s "self._run@Pipeline.run")].
+
 (* validate_map: the checks in the code's order; Ok = prepare_run returns *)
 Definition validate_map (q : mreq) : result unit := first_failure chk (map_steps (q_cleanup q)) q.
 
